@@ -22,7 +22,7 @@ LEVEL = "exploration"
 RULE = (
     "generated streams / single messages / structures written as files in every input format (binary, hex, pcapng, "
     "swtpm-log, auto) and converted with every output format (pretty, events, binary) as a stream, with --type T and with "
-    "--type Response --command C; stdin and several files; malformed files (warn-mode output); misspelt type / command "
+    "--type Response --command C; stdin and several files (split at message boundaries, between a command and its response, inside a message; with --in binary and with auto-detection); malformed files (warn-mode output); misspelt type / command "
     "names and Response without a command; command names (one per first letter + a seed-dependent window; thorough all 117) each accepted for a failed response and refused when the first letter is doubled / dropped or '_', '2', 'x' is added; `type` on single messages; `example` for command codes and type names; one "
     "evaluation = one CLI invocation; distinct = distinct (sub-command, input format, output format, type choice, outcome)"
 )
@@ -210,6 +210,14 @@ def convert_shard(shard, rec, rng, tmp):
             args = ["convert", "--in", "binary", "--out", "events"] + files
             rec.count("several_files_with_empty" if pe in files else "several_files")
             compare_convert(rec, "two-files", args, "binary", "events", "CommandResponseStream", carried, None, dict(kind="convert", args=["convert", "--in", "binary", "--out", "events"], fmt_in="binary", fmt_out="events", t="CommandResponseStream", container=carried.hex()))
+            # the file boundary need not be a message boundary, and the format may be left to auto-detection: one stream
+            # over all files - between a command and its response (the response needs the command's code) or inside a message
+            for cut, label in ((len(mb[0]), "files-cut-after-command"), (len(mb[0]) + min(7, len(mb[1]) - 1), "files-cut-inside-message")):
+                q1, q2 = write(tmp, f"q{k}a.bin", carried[:cut]), write(tmp, f"q{k}b.bin", carried[cut:])
+                fo = "binary" if label.endswith("message") else "events"
+                for pre, fi in ((["convert", "--out", fo], "auto"), (["convert", "--in", "binary", "--out", fo], "binary")):
+                    rec.count(f"several_files_{fi}_{label}")
+                    compare_convert(rec, label, pre + [q1, q2], fi, fo, "CommandResponseStream", carried, None, dict(kind="convert-files", pre=pre, cut=cut, fmt_in=fi, fmt_out=fo, container=carried.hex()))
 
 
 def cc_name(cc):
@@ -456,7 +464,7 @@ def run_shard(shard, rec):
 def finish(m, tier):
     inc = []
     for k in ("convert_in_binary", "convert_in_hex", "convert_in_pcapng", "convert_in_swtpm-log", "convert_in_auto", "convert_out_pretty", "convert_out_events",
-              "convert_out_binary", "refused_unknown-type", "refused_unknown-command", "refused_response-without-command", "command_names_accepted", "type_runs", "example_runs", "example_blocks_redecoded"):
+              "convert_out_binary", "refused_unknown-type", "refused_unknown-command", "refused_response-without-command", "command_names_accepted", "several_files_auto_files-cut-after-command", "several_files_auto_files-cut-inside-message", "type_runs", "example_runs", "example_blocks_redecoded"):
         if not m["counters"].get(k):
             inc.append(f"no {k}")
     return dict(inconclusive=inc)
@@ -473,6 +481,10 @@ def replay(r, rec):
             else:
                 p = write(tmp, "replay.dat", cont)
                 compare_convert(rec, "replay", r["args"] + [p], r["fmt_in"], r["fmt_out"], r["t"], cont, r.get("cc"), r)
+        elif k == "convert-files":
+            cont = bytes.fromhex(r["container"])
+            q1, q2 = write(tmp, "qa.bin", cont[: r["cut"]]), write(tmp, "qb.bin", cont[r["cut"] :])
+            compare_convert(rec, "replay", r["pre"] + [q1, q2], r["fmt_in"], r["fmt_out"], "CommandResponseStream", cont, None, r)
         elif k == "names":
             names_shard(dict(names=r["names"], all_variants=True), rec, random.Random(0), tmp)
         elif k == "refuse-args":
